@@ -2,7 +2,7 @@ import numpy as np
 
 
 def levenshtein_distance(source, target, sub_cost=1, ins_cost=1, del_cost=1):
-    target = np.array(target)
+    target = np.array(target, dtype=object)
     dist = np.arange(len(target) + 1) * ins_cost
     for s in source:
         dist[1:] = np.minimum(dist[1:] + del_cost, dist[:-1] + (target != s) * sub_cost)
@@ -14,7 +14,7 @@ def levenshtein_distance(source, target, sub_cost=1, ins_cost=1, del_cost=1):
 
 
 def levenshtein_alignment(source, target, sub_cost=1, ins_cost=1, del_cost=1, empty_symbol=None):
-    target = np.array(target)
+    target = np.array(target, dtype=object)
     backtrack = np.ones((len(source) + 1, len(target) + 1))
     backtrack[0] = -1
     dist = np.arange(len(target) + 1) * ins_cost
@@ -43,7 +43,7 @@ def levenshtein_alignment(source, target, sub_cost=1, ins_cost=1, del_cost=1, em
 
 
 def levenshtein_alignment_path(source, target, sub_cost=1, ins_cost=1, del_cost=1, empty_symbol=None):
-    target = np.array(target)
+    target = np.array(target, dtype=object)
     backtrack = np.ones((len(source) + 1, len(target) + 1))
     backtrack[0] = -1
     dist = np.arange(len(target) + 1) * ins_cost
@@ -88,7 +88,7 @@ def levenshtein_distance_substring(source, target, sub_cost=1, ins_cost=1, del_c
     if len(target) > len(source):
         target, source = source, target
 
-    target = np.array(target)
+    target = np.array(target, dtype=object)
     dist = np.ones((1 + len(target) + 1)) * float('inf')
     dist[:-1] = np.arange(len(target) + 1) * ins_cost
     dist[-1] = dist[-2]
@@ -109,7 +109,7 @@ def levenshtein_alignment_substring(source, target, sub_cost=1, ins_cost=1, del_
         target, source = source, target
         swapped = True
 
-    target = np.array(target)
+    target = np.array(target, dtype=object)
     backtrack = np.ones((len(source) + 1, 1 + len(target) + 1))
     backtrack[0] = -1
     dist = np.ones((1 + len(target) + 1)) * float('inf')
